@@ -34,7 +34,7 @@ lock = threading.Lock()
 
 
 def worker(k):
-    repo, ver = '/tmp/sp_repo_%d' % k, '/tmp/sp_verif_%d' % k
+    repo, ver = '/tmp/sp_%d_repo_%d' % (os.getpid(), k), '/tmp/sp_%d_verif_%d' % (os.getpid(), k)     # unique per invocation
     sh("git -C /repo worktree remove --force %s; rm -rf %s %s" % (repo, repo, ver))
     r = sh("git -C /repo worktree add --detach %s HEAD" % repo)
     if r.returncode != 0:
